@@ -133,6 +133,13 @@ def run(ctx, collect):
     from py_gql.validation.validate import SPECIFIED_RULES
     fixes = probe_fixes()
     ctx.extra["fixes_detected_in_tree"] = fixes
+    if not all(fixes.values()):
+        # the uniform theorems (rule_iff_all, verdict_iff_all_partial, ...) speak about `Fixes.all` / `HeadVars`
+        missing = sorted(k for k, v in fixes.items() if not v)
+        ctx.fail("tree-is-not-the-proved-variant:" + "+".join(missing),
+                 "the tree under test behaves like the UNFIXED variant %s of the validator; the theorems of Props/C06_all.lean "
+                 "are stated for the fixed variant (Fixes.all)" % missing,
+                 {"part": "model", "fixes": fixes}, kind="correspondence")
     live_names = [c.__name__ for c in SPECIFIED_RULES]
     model_names = ctx.driver.ask([{"op": "rules"}])[0]
     if live_names != model_names:
